@@ -47,7 +47,7 @@ Inductive sevent :=
 | SMark         (* a system reset matching the resource reached the gateway; its task has not been processed yet *)
 | SNop.         (* a processed mark *)
 
-Inductive mtyp := MGet | MAccess | MCall | MAuth | MQuery | MOtherReq.
+Inductive mtyp := MGet | MAccess | MCall | MAuth | MQuery | MOtherReq | MTokReset.
 
 Inductive mout :=
 | OGet (d : rdata)                 (* get result (RErr never used here) *)
@@ -83,6 +83,8 @@ Inductive tev :=
 | TConnSub (c : conn) | TConnUnsub (c : conn)      (* the gateway's subscription to conn.<cid>.* events *)
 | TEvict (r : rid)                                   (* the eviction timer of a cache entry fired *)
 | TConnToken (c : conn) (tok : nat)                  (* a token event for the connection reached the gateway *)
+| TTokenTask (c : conn) (tok : nat) (tid : nat)      (* the connection's worker starts the task that processes that token event (tid 0 = none) *)
+| TTokenResetEv (tids : list nat)                    (* a system.tokenReset event naming these token ids reached the gateway *)
 | TSysReset (res acc : list rid)                     (* system.reset reached the gateway; the known resources matching its patterns *)
 | TResetTask (r : rid) | TResetStart (r : rid) | TResetNoop (r : rid) | TResetDone (r : rid)   (* reset handling of a cached resource (site marks) *)
 | TQVariants (base : rid) (vs : list rid)            (* a query event of resource base is about to be processed; the loaded query variants *)
